@@ -109,3 +109,32 @@ Proof.
     + intros [= <-]. specialize (AI sh items).
       destruct (hcall h None (AffinityIt sh items) k) as [[[o k'] h'] b]. cbn [fst snd] in *. subst. reflexivity.
 Qed.
+
+(* ------------------------------------------------ the caller's pid is irrelevant *)
+Theorem caller_irrelevant c1 c2 h occ r k : h_pid h <> 0 -> hcall_as c1 h occ r k = hcall_as c2 h occ r k.
+Proof.
+  intros H. unfold hcall_as, resolve. replace (h_pid h =? 0) with false by (symmetry; apply Z.eqb_neq; exact H). reflexivity.
+Qed.
+Theorem hcall_as_is_hcall c h occ r k : h_pid h <> 0 ->
+  fst (fst (fst (hcall_as c h occ r k))) = fst (fst (fst (hcall h occ r k)))
+  /\ snd (fst (fst (hcall_as c h occ r k))) = snd (fst (fst (hcall h occ r k))).
+Proof.
+  intros H. unfold hcall_as, resolve. replace (h_pid h =? 0) with false by (symmetry; apply Z.eqb_neq; exact H).
+  unfold with_flags. cbn [h_class h_pid h_ident h_gone h_reused h_reaped]. destruct h. split; reflexivity.
+Qed.
+
+(* a forked child (pid 1001, nice 3) using the handle its parent (pid 1000, nice 0) created for itself:
+   the code acts on 1000; the "own process" shortcut would read and change 1001 *)
+Definition fk_p (nice : Z) : proc :=
+  {| p_nice := nice; p_ioprio := 0; p_mask := [0; 1]; p_elig := [0; 1]; p_rlim := repeat (RLIM_INFINITY, RLIM_INFINITY) 16 |}.
+Definition fk_k : kernel :=
+  {| k_procs := [(1000, fk_p 0); (1001, fk_p 3)]; k_ncpu := 2; k_nr_cpu_ids := 64; k_cap_nice := true; k_cap_admin := true;
+     k_cap_resource := true; k_nr_open := 1048576; k_ioget_effective := false |}.
+Definition fk_h : handle := {| h_class := HProcess; h_pid := 1000; h_ident := 7; h_gone := false; h_reused := false; h_reaped := NotReaped |}.
+Example fork_shortcut_refuted :
+  fst (fst (fst (hcall_as 1001 fk_h (Some 7) (Nice None) fk_k))) = Val (RInt 0)
+  /\ fst (fst (fst (hcall_own_shortcut 1001 true fk_h (Some 7) (Nice None) fk_k))) = Val (RInt 3)
+  /\ kget 1001 (snd (fst (fst (hcall_as 1001 fk_h (Some 7) (Nice (Some 5)) fk_k)))) = Some (fk_p 3)
+  /\ kget 1000 (snd (fst (fst (hcall_as 1001 fk_h (Some 7) (Nice (Some 5)) fk_k)))) = Some (fk_p 5)
+  /\ kget 1001 (snd (fst (fst (hcall_own_shortcut 1001 true fk_h (Some 7) (Nice (Some 5)) fk_k)))) = Some (fk_p 5).
+Proof. repeat split; vm_compute; reflexivity. Qed.
